@@ -7,7 +7,9 @@ package main
 //	D <n> <bos><boe> <bpops> <script> <timing> <seed> <trace> <prog-hex>
 //	    n threads evaluate the program with the real debugger attached; a controller answers
 //	    every REPORTED suspension (found by polling the `status` / `describe` commands) with
-//	    the next act of the script. Result: `same=1|0 susp=<lines thread 1>|<thread 2>…`
+//	    the next act of the script. Result: `same=1|0 vis=1|0 susp=<lines thread 1>|<thread 2>…`
+//	    vis = every evaluated literal node (number, string, true/false/null) was announced to
+//	    the debugger (noted independently by wrapping the literal nodes' runtimes).
 //	    same = result, log and global scope of every debugged thread equal those of a plain run.
 //	    <trace> is the visit trace of the program recorded at generation time (a debugger
 //	    wrapper that notes every VisitState / VisitStepInState / VisitStepOutState call).
@@ -47,12 +49,62 @@ import (
 // recDebugger notes every visit call the interpreter makes and hands it to the real debugger.
 type recDebugger struct {
 	util.ECALDebugger
-	mu     sync.Mutex
-	traces map[uint64][]string
+	mu        sync.Mutex
+	traces    map[uint64][]string
+	litVisits map[int]int // debugger visits of literal nodes per line
+	litEvals  map[int]int // evaluations of literal nodes per line (noted by c15LitRuntime)
+}
+
+// c15IsLiteral: leaf nodes whose runtime nobody type-asserts (safe to wrap).
+func c15IsLiteral(n *parser.ASTNode) bool {
+	switch n.Name {
+	case parser.NodeNUMBER, parser.NodeSTRING, parser.NodeTRUE, parser.NodeFALSE, parser.NodeNULL:
+		return n.Token != nil
+	}
+	return false
+}
+
+// c15LitRuntime notes every evaluation of a literal node independently of the debugger: a
+// line that is executed must be visited, also when it holds nothing but a literal.
+type c15LitRuntime struct {
+	parser.Runtime
+	line int
+	rec  *recDebugger
+}
+
+func (r *c15LitRuntime) Eval(vs parser.Scope, is map[string]interface{}, tid uint64) (interface{}, error) {
+	r.rec.mu.Lock()
+	r.rec.litEvals[r.line]++
+	r.rec.mu.Unlock()
+	return r.Runtime.Eval(vs, is, tid)
+}
+
+func c15WrapLiterals(n *parser.ASTNode, rec *recDebugger) {
+	if c15IsLiteral(n) {
+		n.Runtime = &c15LitRuntime{n.Runtime, n.Token.Lline, rec}
+	}
+	for _, c := range n.Children {
+		c15WrapLiterals(c, rec)
+	}
+}
+
+// litAgree: every evaluated literal node was announced to the debugger.
+func (d *recDebugger) litAgree() bool {
+	d.mu.Lock()
+	defer d.mu.Unlock()
+	if len(d.litVisits) != len(d.litEvals) {
+		return false
+	}
+	for l, n := range d.litEvals {
+		if d.litVisits[l] != n {
+			return false
+		}
+	}
+	return true
 }
 
 func newRecDebugger(d util.ECALDebugger) *recDebugger {
-	return &recDebugger{ECALDebugger: d, traces: map[uint64][]string{}}
+	return &recDebugger{ECALDebugger: d, traces: map[uint64][]string{}, litVisits: map[int]int{}, litEvals: map[int]int{}}
 }
 
 func (d *recDebugger) note(tid uint64, s string) {
@@ -64,6 +116,11 @@ func (d *recDebugger) note(tid uint64, s string) {
 func (d *recDebugger) VisitState(node *parser.ASTNode, vs parser.Scope, tid uint64) util.TraceableRuntimeError {
 	if node.Token != nil {
 		d.note(tid, "v"+strconv.Itoa(node.Token.Lline))
+		if c15IsLiteral(node) {
+			d.mu.Lock()
+			d.litVisits[node.Token.Lline]++
+			d.mu.Unlock()
+		}
 	}
 	return d.ECALDebugger.VisitState(node, vs, tid)
 }
@@ -363,6 +420,7 @@ func c15Debugged(c *c15Run, kill bool) (threads []*c15Thread, lg *memLog, rec *r
 		t := &c15Thread{err: err, normal: true, vs: gvs}
 		return []*c15Thread{t}, lg, rec, false
 	}
+	c15WrapLiterals(ast, rec)
 	for i := 0; i < c.n; i++ {
 		vs := gvs
 		if i > 0 {
@@ -587,8 +645,12 @@ func c15RunD(f []string, payload string) string {
 	c := &c15Run{src: unhx(f[7]), n: n, bos: f[1][0] == '1', boe: f[1][1] == '1', bpops: c15List(f[2], ","),
 		script: c15List(f[3], ","), timing: f[4], seed: seed, payload: payload}
 	plain, plainLog, _ := c15Plain(c.src)
-	threads, lg, _, hang := c15Debugged(c, false)
+	threads, lg, rec, hang := c15Debugged(c, false)
 	same := 1
+	vis := 1
+	if !hang && !rec.litAgree() {
+		vis = 0
+	}
 	var susp []string
 	for _, t := range threads {
 		susp = append(susp, c15Lines(t.susp))
@@ -610,7 +672,7 @@ func c15RunD(f []string, payload string) string {
 		same = 0
 	}
 	sort.Strings(susp)
-	r := fmt.Sprintf("same=%d susp=%s", same, strings.Join(susp, "|"))
+	r := fmt.Sprintf("same=%d vis=%d susp=%s", same, vis, strings.Join(susp, "|"))
 	if hang {
 		r = "HANG-suspended-thread-not-released " + r
 	}
@@ -704,7 +766,7 @@ type c15Gen struct {
 	vars  []string
 	funcs []string
 	nv    int
-	bpIn  []int // interesting lines (inside functions / loops)
+	zero  bool // a function z() without parameters exists
 }
 
 func (p *c15Gen) emit(s string) int {
@@ -744,7 +806,7 @@ func (p *c15Gen) block(d int, n int) {
 }
 
 func (p *c15Gen) stmt(d int) {
-	k := p.r.Intn(13)
+	k := p.r.Intn(17)
 	if d <= 0 && k >= 5 && k <= 8 {
 		k = 0
 	}
@@ -851,6 +913,49 @@ func (p *c15Gen) stmt(d int) {
 		} else {
 			p.emit("log(\"nf\")")
 		}
+	case 13:
+		// lines holding a single token-bearing node
+		if p.zero {
+			p.emit("z()")
+		} else {
+			p.emit("log(\"nz\")")
+		}
+	case 14:
+		// multi-line list: element lines hold only a number literal
+		l := p.fresh()
+		p.emit(l + " := [")
+		p.emit("    " + strconv.Itoa(p.r.Intn(9)) + ",")
+		p.emit("    " + strconv.Itoa(p.r.Intn(9)))
+		p.emit("]")
+		v := p.fresh()
+		p.emit(v + " := " + l + "[1]")
+		p.vars = append(p.vars, v)
+	case 15:
+		// multi-line call: the argument line holds only a number literal
+		if len(p.funcs) > 0 {
+			v := p.fresh()
+			p.emit(v + " := " + p.funcs[p.r.Intn(len(p.funcs))] + "(")
+			p.emit("    " + strconv.Itoa(p.r.Intn(9)))
+			p.emit(")")
+			p.vars = append(p.vars, v)
+		} else {
+			p.emit("log(")
+			p.emit("    " + strconv.Itoa(p.r.Intn(9)))
+			p.emit(")")
+		}
+	case 16:
+		// loop left / continued by a one-token line
+		i := p.fresh()
+		p.emit("for " + i + " in range(1, 3) {")
+		p.ind++
+		p.stmt(0)
+		if p.r.Bool() {
+			p.emit("break")
+		} else {
+			p.emit("continue")
+		}
+		p.ind--
+		p.emit("}")
 	default:
 		if len(p.funcs) > 0 {
 			p.emit(p.funcs[p.r.Intn(len(p.funcs))] + "(" + p.expr(1) + ")")
@@ -866,6 +971,14 @@ func (p *c15Gen) stmt(d int) {
 // bounded recursion), loops with small constant bounds, try blocks, containers, log output.
 func c15Program(r *Rand) string {
 	p := &c15Gen{r: r}
+	if r.Intn(2) == 0 {
+		// a function whose body is a bare return: called as `z()`, a line with one node
+		p.emit("func z() {")
+		p.emit("    log(\"z\")")
+		p.emit("    return")
+		p.emit("}")
+		p.zero = true
+	}
 	nf := r.Intn(4)
 	for i := 0; i < nf; i++ {
 		name := "f" + strconv.Itoa(i)
@@ -1005,6 +1118,22 @@ var c15Corpus = []string{
 	"m := {\"a\": 1, \"b\": [1, 2]}\nm.a := m.a + 1\nl := [1, 2, 3]\nl[1] := m.a\nlog(l, m)\nlen(l)",
 }
 
+// directed cases: program, break point edits, script
+var c15Directed = [][3]string{
+	// a resumed thread whose NEXT executed line has an active break point and holds one node
+	{"func z() {\n    log(\"z\")\n    return\n}\na := 1\nz()\nz()\nb := 2\nb", "s5,s6,s7,s3", "R,R,R,R,R,R"},
+	{"func z() {\n    log(\"z\")\n    return\n}\na := 1\nz()\nz()\nb := 2\nb", "s2,s3,s6,s7", "R,R,R,R,R,R,R"},
+	{"for i in range(1, 3) {\n    a := i\n    break\n}\nfor j in range(1, 2) {\n    b := j\n    continue\n}\n7", "s2,s3,s6,s7", "R,R,R,R,R,R,R"},
+	{"func r(a) {\n    b := a\n    return\n}\nr(1)\nr(2)\n3", "s2,s3,s5,s6", "R,R,R,R,R,R,R"},
+	// break points on lines that hold only number literals
+	{"l := [\n    1,\n    2\n]\nl[0]", "s2,s3", "R,R,R"},
+	{"func k(a) {\n    return a\n}\nx := k(\n    3\n)\ny := [\n    4,\n    k(\n        5\n    )\n]\nx", "s5,s8,s10", "R,R,R,R"},
+	{"l := [\n    1,\n    2\n]\nl[0]", "s2,s3", "I,I,I,I"},
+	// break points inside a call that is stepped over / out of
+	{"func g(a) {\n    return a + 1\n}\nfunc f(a) {\n    b := g(a)\n    c := g(b)\n    return c\n}\nx := f(1)\ny := f(2)\nx + y", "s9,s2,s6", "O,R,O,U,R,O,O,O"},
+	{"func f(a) {\n    for i in range(1, 3) {\n        b := i\n        c := b\n    }\n    return a\n}\nx := f(1)\nx", "s8,s3", "O,U,U,U,U"},
+}
+
 func init() {
 	register("C15", &Prop{
 		Timeout:          90 * time.Second,
@@ -1058,6 +1187,13 @@ func init() {
 				// StopThreads
 				g.Count("K")
 				g.Emit(fmt.Sprintf("K %d %s %s %s", 1+r.Intn(4), c15BpOps(r, nLines, visited), c15TraceStr(trace), hx(src)))
+			}
+			for _, d := range c15Directed {
+				_, _, trace := c15Plain(d[0])
+				for _, timing := range []string{"poll", "window"} {
+					g.Count("D.directed")
+					g.Emit(fmt.Sprintf("D 1 00 %s %s %s 1 %s %s", d[1], d[2], timing, c15TraceStr(trace), hx(d[0])))
+				}
 			}
 			for i, src := range c15Corpus {
 				emitD(src, NewRand(uint64(1000+i)), true)
